@@ -57,6 +57,17 @@ func init() {
 		Old: "\t*reply = ReceiveValueResp{Value: res.getStableValue()}\n", New: "\t*reply = ReceiveValueResp{Value: res.getStableValue()}\n\treply.Value = res.value\n", Expect: "ReceiveValueResp.Value="})
 	seed(Seed{Name: "hashmap-set-forgets-key", Prop: "C05", Rule: "HASHMAP-EQ", File: "distsys/hashmap/hashmap.go",
 		Old: "\t\th.keys = append(h.keys, k)\n\t\th.m[hash] = append(h.m[hash], entry)\n\t} else {", New: "\t\th.m[hash] = append(h.m[hash], entry)\n\t} else {", Expect: "records-key"})
+	seed(Seed{Name: "hashmap-colliding-key-not-listed", Prop: "C17", Rule: "HASHMAP-KEYS", File: "distsys/hashmap/hashmap.go",
+		Old: "\t\t}\n\t\th.keys = append(h.keys, k)\n\t\th.m[hash] = append(h.m[hash], entry)\n", New: "\t\t}\n\t\th.m[hash] = append(h.m[hash], entry)\n", Expect: "records-key"})
+	seed(Seed{Name: "length-view-drops-clock", Prop: "C18", Rule: "LEN-CLOCK", File: res + "tcpmailboxes.go",
+		Old: "int32(len(res.readBacklog))), vclock)", New: "int32(len(res.readBacklog))), tla.VClock{})", Expect: "returns-count-with-merged-clock"})
+	seed(Seed{Name: "length-view-merges-stale-backlog", Prop: "C18", Rule: "LEN-CLOCK", File: res + "relaxedmailboxes.go",
+		Old: "\tchanLen := len(res.msgChannel)\n\tif len(res.readBacklog) == 0 && chanLen > 0 {\n\t\tres.readBacklog = append(res.readBacklog, <-res.msgChannel)\n\t}\n\tvar vclock tla.VClock\n\tfor _, elem := range res.readBacklog {",
+		New: "\tchanLen := len(res.msgChannel)\n\tpending := res.readBacklog\n\tif len(res.readBacklog) == 0 && chanLen > 0 {\n\t\tres.readBacklog = append(res.readBacklog, <-res.msgChannel)\n\t}\n\tvar vclock tla.VClock\n\tfor _, elem := range pending {", Expect: "clock-covers-what-is-counted"})
+	seed(Seed{Name: "fd-state-lock-held-across-sleep", Prop: "C19", Rule: "FD-LOCK-SHORT", File: res + "fd.go",
+		Old: "\tres.lock.Lock()\n\tres.state = state\n\tres.lock.Unlock()\n", New: "\tres.lock.Lock()\n\tres.state = state\n\ttime.Sleep(res.pullInterval)\n\tres.lock.Unlock()\n", Expect: "setState"})
+	seed(Seed{Name: "fd-dial-under-state-lock", Prop: "C19", Rule: "FD-LOCK-SHORT", File: res + "fd.go",
+		Old: "func (res *SingleFailureDetector) ensureClient() error {\n", New: "func (res *SingleFailureDetector) ensureClient() error {\n\tres.lock.Lock()\n\tdefer res.lock.Unlock()\n", Expect: "ensureClient"})
 	seed(Seed{Name: "merge-second-loop-reuses-iterator", Prop: "C12", Rule: "ITER-FRESH", File: res + "aworset.go",
 		Old: "\ti = remK.Iterator()\n", New: "", Expect: "AWORSet.Merge"})
 }
